@@ -2931,9 +2931,18 @@ class TensorDictBase(MutableMapping):
                 if len(value.batch_size) < len(new_batch_size):
                     # document as edge case
                     value.batch_size = new_batch_size
-                    self._set_str(
-                        key, value, inplace=True, validated=True, non_blocking=False
+                elif value.batch_size[: len(new_batch_size)] != new_batch_size:
+                    # an empty nested tensordict is exempted from the check above: its
+                    # leading dims must follow (its own extra dims are kept), otherwise its
+                    # batch size would not extend the one of its parent anymore
+                    value.batch_size = (
+                        new_batch_size + value.batch_size[len(new_batch_size) :]
                     )
+                else:
+                    continue
+                self._set_str(
+                    key, value, inplace=True, validated=True, non_blocking=False
+                )
         has_names = self._has_names()
         if has_names:
             # if the tensordict has dim names and the new batch-size has more dims,
